@@ -163,3 +163,44 @@ fn datagram_arm<const N: usize>() {
 fn c03_complete_frame_datagram_arm() {
     datagram_arm::<8>()
 }
+
+/// C03/C04 complete_frame, ACK arm: an ACK frame read from a packet passes through the gate
+/// `AckFrame::is_well_formed` (RFC 9000 §19.3.1: a computed packet number that is negative is a
+/// FRAME_ENCODING_ERROR). Four wire witnesses: three ill-formed frames are answered with an error that
+/// is not a nom Failure (be_frame maps it to frame::Error::ParseError -> FRAME_ENCODING_ERROR), the
+/// boundary frame reaching exactly packet number 0 is accepted unchanged.
+/// On the pinned tree the three ill-formed frames were ACCEPTED and reached `AckFrame::iter`
+/// (genuine defect F-C04-ack-negative-range, fixed in /repo).
+fn ack_gate_case(bytes: &'static [u8], expect_ok: bool) {
+    let raw = Bytes::from_static(bytes);
+    let r = complete_frame(FrameType::Ack(Ecn::None), raw.clone())(bytes);
+    match r {
+        Ok((remain, Frame::Ack(f))) => {
+            assert!(expect_ok, "an ACK frame reaching below packet number 0 must be rejected");
+            assert!(remain.is_empty() && f.is_well_formed());
+            core::mem::forget(f);
+        }
+        Ok(_) => panic!("ACK arm returned another frame kind"),
+        Err(e) => {
+            assert!(!expect_ok, "a well-formed ACK frame must be accepted");
+            assert!(matches!(e, nom::Err::Error(_)), "rejected with an ordinary parse error (-> FRAME_ENCODING_ERROR)");
+            core::mem::forget(e);
+        }
+    }
+    core::mem::forget(raw);
+}
+
+#[kani::proof]
+#[kani::unwind(16)]
+#[kani::stub(core::slice::index::slice_index_fail, stub_slice_index_fail)]
+fn c03_complete_frame_ack_gate() {
+    // Largest=0, Delay=0, Count=0, First ACK Range=1
+    ack_gate_case(&[0x00, 0x00, 0x00, 0x01], false);
+    // Largest=5, Delay=0, Count=1, First=0, Gap=4, Range=0
+    ack_gate_case(&[0x05, 0x00, 0x01, 0x00, 0x04, 0x00], false);
+    // Largest=0, Delay=0, Count=1, First=0, Gap=0, Range=2^62-1
+    ack_gate_case(&[0x00, 0x00, 0x01, 0x00, 0x00, 0xff, 0xff, 0xff, 0xff, 0xff, 0xff, 0xff, 0xff], false);
+    // boundary: Largest=5, First=1, Gap=2, Range=0 -> 4..=5 and 0..=0
+    ack_gate_case(&[0x05, 0x00, 0x01, 0x01, 0x02, 0x00], true);
+    kani::cover!(true, "all four witnesses decided");
+}
